@@ -633,7 +633,13 @@ class CallSites:
     def check(self, fnames=None):
         """yields (fn, callee, atom, ok, where, detail, path) for every internal call site x precondition atom"""
         seen = {}
+        import paths as _P
+        in_context = set()
+        for g_ in self.prog.lib_funcs():
+            in_context |= _P.static_callees(self.prog, self.eff, g_.name)
         for f in (self.prog.lib_funcs() if fnames is None else [self.prog.fn(n) for n in fnames]):
+            if f.name in in_context:
+                continue      # a unit-internal helper: its call sites are judged where it is inlined
             for pa in self.cache.get(f.name, inline_static=True):
                 for e in pa.events:
                     if e.kind != "call" or e.ckind != "lib" or e.callee not in self.H:
